@@ -37,6 +37,8 @@ def rand_template(rng, calm, r):
         t["partial"] = True
     if r2.random() < 0.2:
         t["method"] = True
+    if t["kind"] in ("starmap", "doublestarmap") and r2.random() < 0.3:
+        t["void"] = r2.randrange(0, t["num"] + 1)       # an element that cannot be unpacked, before element number ...
     if t["kind"] == "apply" and not calm and r2.random() < 0.05:
         t["mismatch"] = True
     if t["kind"] != "apply" and rng.random() < 0.04:
